@@ -19,7 +19,8 @@
   `np.datetime64` of any unit is read as the `pd.Timestamp` of its instant (`_scalar`, fix C14-F6: the
   `dt` cell; numpy's own `==` casts units, so a day-resolution value was `==` to a `date`),
   `np.timedelta64` / `pd.Timedelta` / `datetime.timedelta` are the duration `tdelta` (microseconds;
-  never `==` to a number), and `pd.NaT` - which `np.datetime64('NaT')` / `np.timedelta64('NaT')` become -
+  never `==` to a number); an `np.timedelta64` in YEARS or MONTHS is not such a duration (pandas refuses it) but the calendar
+  duration `cdelta` (months; fix C14-F9: equal only to another year / month `np.timedelta64` of as many months), and `pd.NaT` - which `np.datetime64('NaT')` / `np.timedelta64('NaT')` become -
   is the single object `nat`: equal to itself by identity (`x is y`), `==` to nothing.
 -/
 import PygModel.Sort
@@ -34,6 +35,9 @@ inductive EVal where
   | cell (c : Cell)
   | date (d : Int)
   | tdelta (us : Int)
+  /-- a numpy duration counted in calendar months (`np.timedelta64` in units `Y` / `M`: pandas has no such duration, numpy has no
+  common unit for it with weeks…ns): equal exactly to the same number of months, never to a number, never to a `tdelta` -/
+  | cdelta (months : Int)
   | nat
   | list (xs : List EVal)
   | tuple (xs : List EVal)
@@ -81,6 +85,7 @@ mutual
     | .cell a, .cell b => cellEq a b                       -- NaN branch / `x == y`
     | .date a, .date b => a == b                           -- `x == y` on two dates
     | .tdelta a, .tdelta b => a == b                       -- `x == y` on two durations
+    | .cdelta a, .cdelta b => a == b                       -- two year / month `np.timedelta64`: numpy `==` (12 months to the year)
     | .nat, .nat => true                                   -- `x is y`: `pd.NaT` is one object
     | .list xs, .list ys => eqArr xs ys                    -- :72
     | .tuple xs, .tuple ys => eqArr xs ys                  -- :72
@@ -112,6 +117,7 @@ mutual
     | .cell c => .cell c
     | .date d => .date d
     | .tdelta d => .tdelta d
+    | .cdelta d => .cdelta d
     | .nat => .nat
     | .list xs => .list (EVal.normList xs)
     | .tuple xs => .tuple (EVal.normList xs)
